@@ -39,21 +39,35 @@ def gen_metamodel(rng, k):
             root.eSubpackages.append(sib)
             pkgs.append(sib)
     enums, dts, classes = [], [], []
+    styles = {}
+
+    def add(coll, x):
+        """every way the API offers to put an element into a collection; one way per collection, so that some collections
+        are filled by insert() only"""
+        st = styles.setdefault(id(coll), rng.choice(['append', 'append', 'insert-end', 'insert-front-then-fix', 'extend']))
+        if st == 'append':
+            coll.append(x)
+        elif st == 'insert-end':
+            coll.insert(len(coll), x)
+        elif st == 'insert-front-then-fix':
+            coll.insert(len(coll), x) if len(coll) else coll.insert(0, x)
+        else:
+            coll.extend([x])
     for i in range(rng.choice([0, 1, 2])):
         en = E.EEnum(f'En{i}', literals=[f'L{i}{j}' for j in range(rng.randint(1, 4))])
-        rng.choice(pkgs).eClassifiers.append(en); enums.append(en)
+        add(rng.choice(pkgs).eClassifiers, en); enums.append(en)
     for i in range(rng.choice([0, 1])):
         dt = E.EDataType(f'DT{i}', instanceClassName=rng.choice(['java.lang.Integer', 'java.lang.String', 'java.util.List', 'boolean']))
-        rng.choice(pkgs).eClassifiers.append(dt); dts.append(dt)
+        add(rng.choice(pkgs).eClassifiers, dt); dts.append(dt)
     n = rng.randint(2, 6)
     for i in range(n):
         c = E.EClass(f'K{i}', abstract=rng.random() < .2)
         if rng.random() < .15:
             c.interface = True
-        rng.choice(pkgs).eClassifiers.append(c); classes.append(c)
+        add(rng.choice(pkgs).eClassifiers, c); classes.append(c)
     for i in range(1, n):
         for j in sorted(rng.sample(range(i), rng.randint(0, min(2, i)))):
-            classes[i].eSuperTypes.append(classes[j])
+            add(classes[i].eSuperTypes, classes[j])
     fid = [0]
 
     def nm(p='f'):
@@ -67,20 +81,20 @@ def gen_metamodel(rng, k):
                              iD=rng.random() < .1, changeable=rng.random() < .9, derived=False)
             if rng.random() < .2 and a.eType in (E.EInt, E.EString):
                 a.defaultValueLiteral = '7' if a.eType is E.EInt else 'dflt'
-            c.eStructuralFeatures.append(a)
+            add(c.eStructuralFeatures, a)
         for _ in range(rng.randint(0, 2)):
             lo, up = rng.choice([(0, 1), (1, 1), (0, -1), (0, 3)])
             r = E.EReference(nm(), rng.choice(classes), lower=lo, upper=up, ordered=rng.random() < .8, unique=True,
                              containment=rng.random() < .4)
-            c.eStructuralFeatures.append(r)
+            add(c.eStructuralFeatures, r)
         for _ in range(rng.choice([0, 0, 1, 2])):
             op = E.EOperation(nm('op'), eType=rng.choice([None, E.EString, E.EInt] + classes))
             npar = rng.randint(0, 3)
             nreq = rng.randint(0, npar)           # Python wants the required parameters first
             for q in range(npar):
-                op.eParameters.append(E.EParameter(nm('p'), eType=rng.choice([E.EString, E.EInt] + classes),
-                                                   required=q < nreq))
-            c.eOperations.append(op)
+                add(op.eParameters, E.EParameter(nm('p'), eType=rng.choice([E.EString, E.EInt] + classes),
+                                                 required=q < nreq))
+            add(c.eOperations, op)
         if rng.random() < .3:
             an = E.EAnnotation(source=f'http://verif/annot{fid[0]}')
             an.details['documentation'] = rng.choice(['some doc', 'x < y & z', ''])
@@ -105,10 +119,16 @@ def signature(pkg):
     out = []
 
     def tname(t):
+        """a classifier by the packages it sits in and its name (two classes of one name in two packages differ)"""
         if t is None:
             return None
         t = getattr(t, 'eClass', t) if isinstance(t, type) else t
-        return getattr(t, 'name', str(t))
+        names = [getattr(t, 'name', str(t))]
+        p = getattr(t, 'ePackage', None)
+        while p is not None and hasattr(p, 'name') and getattr(p, 'nsURI', None) != 'http://www.eclipse.org/emf/2002/Ecore':
+            names.append(p.name)
+            p = p.eSuperPackage if hasattr(p, 'eSuperPackage') else None
+        return '/'.join(reversed(names))
 
     def ann(e):
         return sorted((a.source, sorted(a.details.items())) for a in e.eAnnotations)
@@ -118,7 +138,7 @@ def signature(pkg):
         out.append(('package', here, p.nsURI, p.nsPrefix, ann(p)))
         for c in sorted(p.eClassifiers, key=lambda c: c.name):
             if isinstance(c, E.EClass):
-                out.append(('class', here, c.name, bool(c.abstract), bool(c.interface), [s.name for s in c.eSuperTypes], ann(c)))
+                out.append(('class', here, c.name, bool(c.abstract), bool(c.interface), [tname(s) for s in c.eSuperTypes], ann(c)))
                 for f in c.eStructuralFeatures:
                     common_ = (f.name, tname(f.eType), f.lowerBound, f.upperBound, bool(f.ordered), bool(f.unique),
                                bool(f.changeable), bool(f.derived), bool(f.transient), bool(f.volatile))
@@ -190,6 +210,61 @@ def run_case(ctx, h, tmp):
         ctx.sample({'case': h, 'constructs': len(before), 'document_head': open(path).read()[:400]})
 
 
+def run_case_multi(ctx, h, tmp):
+    """several root packages in one .ecore file (an xmi:XMI wrapper), classes of the same name under different roots,
+    references, supertypes and operation types across the roots"""
+    from pyecore import ecore as E
+    from pyecore.resources import ResourceSet, URI
+    rng = common.sub_rng(ctx.seed, 'C10', 'multi', h)
+    nroots = rng.choice([2, 2, 3])
+    roots = []
+    nodes = []
+    for i in range(nroots):
+        p = E.EPackage(f'r{i}', f'http://verif/multi{h}/r{i}', f'r{i}')
+        n = E.EClass('Node')
+        n.eStructuralFeatures.append(E.EAttribute(f'weight{i}', E.EInt))
+        p.eClassifiers.append(n)
+        if rng.random() < .5:
+            sub = E.EPackage('sub', f'http://verif/multi{h}/r{i}/sub', f's{i}')
+            p.eSubpackages.append(sub)
+            sub.eClassifiers.append(E.EClass('Node'))
+            nodes.append(sub.eClassifiers[0])
+        roots.append(p)
+        nodes.append(n)
+    holder = E.EClass('Holder')
+    rng.choice(roots).eClassifiers.append(holder)
+    for k, n in enumerate(nodes):
+        holder.eStructuralFeatures.append(E.EReference(f'to{k}', n, upper=rng.choice([1, -1]), containment=rng.random() < .3))
+    if rng.random() < .6:
+        holder.eSuperTypes.append(rng.choice(nodes))
+    op = E.EOperation('pick', eType=rng.choice(nodes))
+    op.eParameters.append(E.EParameter('among', eType=rng.choice(nodes), required=True))
+    holder.eOperations.append(op)
+    before = [x for r in roots for x in signature(r)]
+    ctx.evaluations += 1
+    ctx.count('multi-root/' + str(nroots))
+    path = os.path.join(tmp, f'multi{h}.ecore')
+    try:
+        rs = ResourceSet()
+        res = rs.create_resource(URI(path))
+        for r in roots:
+            res.append(r)
+        res.save()
+        back = list(ResourceSet().get_resource(URI(path)).contents)
+        after = [x for r in back for x in signature(r)]
+    except Exception as e:
+        import traceback
+        tb = [l.strip() for l in traceback.format_exc().splitlines() if 'pyecore' in l]
+        ctx.violate({'clause': 'roundtrip-raised', 'error': type(e).__name__, 'shape': 'multi-root'},
+                    f'multi-root .ecore save/load raised {type(e).__name__}: {str(e)[:100]} at {tb[-1] if tb else ""}', {'case': h, 'multi': True})
+        return
+    ctx.nontriv(('multi', h))
+    if before != after:
+        d = next(((a, b) for a, b in zip(before, after) if a != b), (len(before), len(after)))
+        ctx.violate({'clause': 'signature-differs', 'construct': d[0][0] if isinstance(d[0], tuple) else 'count', 'shape': 'multi-root'},
+                    f'reloaded multi-root metamodel differs: {d[0]!r} -> {d[1]!r}', {'case': h, 'multi': True})
+
+
 def corpus(ctx, tmp):
     """every .ecore shipped with the repository that loads on its own: re-save, re-load, same signature"""
     from pyecore.resources import ResourceSet, URI
@@ -222,13 +297,15 @@ def run(ctx):
     n = 60 if ctx.quick() else 2000
     ctx.rule = (f'{n} generated metamodels (packages/sub-packages, classes, abstract/interface, multiple inheritance, attributes and '
                 'references with bounds/ordering/uniqueness/containment/iD/default literals/opposites, enumerations, data types with '
-                'instanceClassName, operations with parameters, annotations) saved as .ecore, reloaded in a fresh resource set, compared '
+                'instanceClassName, operations with parameters, annotations; collections filled by append, insert or extend; one third as many files with several root packages holding same-named classes referred to across the roots) saved as .ecore, reloaded in a fresh resource set, compared '
                 'by structural signature, reloaded classes instantiated; plus every .ecore shipped under tests/ and examples/ that loads '
                 'on its own. non-trivial & distinct = metamodels that saved and loaded')
     tmp = tempfile.mkdtemp(prefix='verif_c10_')
     try:
         for h in range(n):
             run_case(ctx, h, tmp)
+        for h in range(n // 3):
+            run_case_multi(ctx, h, tmp)
         corpus(ctx, tmp)
     finally:
         shutil.rmtree(tmp, ignore_errors=True)
@@ -243,7 +320,9 @@ def replay(ctx, data):
     tmp = tempfile.mkdtemp(prefix='verif_c10_')
     c2 = common.Ctx('C10', data['tier'], data['seed'])
     try:
-        if 'case' in data['replay']:
+        if data['replay'].get('multi'):
+            run_case_multi(c2, data['replay']['case'], tmp)
+        elif 'case' in data['replay']:
             run_case(c2, data['replay']['case'], tmp)
         else:
             corpus(c2, tmp)
